@@ -172,6 +172,20 @@ def cases(rng, tier):
     for rep, ax in [(2, None), (2, 0), (3, 1), ([1, 2], 0), ([2, 0, 1], 1), (1, -1), ([0, 3], 0)]:
         yield ("repeat", (lambda rep=rep, ax=ax: lambda t: mg.repeat(t, rep, axis=ax))(), [V((2, 3))], dict(repeats=rep, axis=ax), None)
     yield ("repeat", lambda t: mg.repeat(t, 3), [V(())], dict(repeats=3, shape=()), None)
+    # integer arguments in every representation NumPy accepts (NumPy integer scalars, 0-d / length-1 arrays, tuples)
+    for rep, ax in [(np.int64(2), 0), (np.int32(3), None), (np.array(2), 1), (np.array([2]), 0), ([3], 1), ((1, 2), 0), (np.array([1, 2]), 0), (np.int64(0), 0), (np.array([2, 0, 1]), np.int64(1))]:
+        yield ("repeat", (lambda rep=rep, ax=ax: lambda t: mg.repeat(t, rep, axis=ax))(), [V((2, 3))], dict(repeats=repr(rep), axis=repr(ax), representation=type(rep).__name__), None)
+    i64 = np.int64
+    for nm, fn in [
+        ("sum", lambda t: mg.sum(t, axis=i64(1))), ("mean", lambda t: mg.mean(t, axis=(i64(0),))), ("max", lambda t: mg.max(t, axis=i64(0))), ("prod", lambda t: mg.prod(t, axis=i64(-1))),
+        ("cumsum", lambda t: mg.cumsum(t, axis=i64(1))), ("cumprod", lambda t: mg.cumprod(t, axis=i64(0))), ("var", lambda t: mg.var(t, axis=i64(1), ddof=i64(1))), ("std", lambda t: mg.std(t, axis=i64(0))),
+        ("reshape", lambda t: t.reshape(i64(3), i64(2))), ("reshape", lambda t: mg.reshape(t, np.array([3, 2]))), ("roll", lambda t: mg.roll(t, i64(1), axis=i64(0))), ("roll", lambda t: mg.roll(t, np.array([1, 2]), axis=(0, 1))),
+        ("moveaxis", lambda t: mg.moveaxis(t, i64(0), i64(-1))), ("swapaxes", lambda t: mg.swapaxes(t, i64(0), i64(1))), ("expand_dims", lambda t: mg.expand_dims(t, i64(1))), ("transpose", lambda t: mg.transpose(t, np.array([1, 0]))),
+        ("squeeze", lambda t: mg.squeeze(t[None], axis=i64(0))), ("stack", lambda t: mg.stack((t, t * 2.0), axis=i64(1))), ("concatenate", lambda t: mg.concatenate((t, t * 2.0), axis=i64(1))),
+        ("getitem", lambda t: t[i64(1)]), ("getitem", lambda t: t[np.array(1)]), ("getitem", lambda t: t[i64(0), i64(1):i64(3)]), ("broadcast_to", lambda t: mg.broadcast_to(t, (i64(2), i64(2), i64(3)))),
+        ("tile-like repeat", lambda t: mg.repeat(t, i64(2))), ("flatten", lambda t: t.flatten()), ("einsum", lambda t: mg.einsum("ij->j", t)),
+    ]:
+        yield (nm, fn, [V((2, 3))], dict(argument_types="numpy integers / integer arrays", call=nm), None)
 
     # ---- where / clip / ties / broadcasting / masks ----------------------------------------------
     cond = np.array([[True, False, True], [False, False, True]])
@@ -376,7 +390,14 @@ def run_shard(tier, seed, only, rank, nproc):
                     b.error(f"{name}: result is not a Tensor")
                     continue
                 g = rng.uniform(0.5, 1.5, size=out.shape) * rng.choice([-1.0, 1.0], size=out.shape)
-                out.backward(g.copy())  # the seed must not be shared with the op under test (C12 is checked elsewhere)
+                try:
+                    out.backward(g.copy())  # the seed must not be shared with the op under test (C12 is checked elsewhere)
+                except Exception as e:
+                    # the forward pass accepted these arguments: a backward pass that raises is not the VJP of anything
+                    b.count("vjp")
+                    b.fail(f"C02.rest.{name}.backward_raises", dict(desc, values=[np.asarray(a).tolist() for a in arrs]), f"forward accepted the call, backward raises {type(e).__name__}: {e}")
+                    b.case(desc, nontrivial=True)
+                    continue
                 grads = [None if t.grad is None else np.array(t.grad, dtype=np.float64) for t in ts]
 
                 def fwd(*xs):
